@@ -18,8 +18,10 @@ RULE = ('the real Equalizer (run_comparison, worker loop, timeout / kill / recyc
 ASSUMPTIONS = ['a virtual process shares no rebinding with its parent after start (shallow copy of the Equalizer at fork); handles (queues, events) are shared',
                'code steps take no time; virtual time advances only when the parent poll expires with no worker step enabled',
                'SIGKILL of a worker that is polling a queue poisons that queue for later readers (worst case of multiprocessing.Queue)']
-B = ['equal', 'different', 'player_raises', 'extractor_raises', 'comparator_raises', 'bare_status', 'exit', 'hang', 'late', 'hang_traps_sigterm', 'spawns_child']
-CONFIGS = [{'recycle': r, 'keep': k, 'timeout': t} for r in (1, 2, 5) for k in (False, True) for t in (0, 2)]
+B = ['equal', 'different', 'player_raises', 'extractor_raises', 'comparator_raises', 'bare_status', 'exit', 'hang', 'late', 'hang_traps_sigterm', 'spawns_child',
+     'late_unkillable', 'player_raises_badstr']
+CONFIGS = [{'recycle': r, 'keep': k, 'timeout': t} for r in (1, 2, 5) for k in (False, True) for t in (0, 2)] + [{'recycle': 2, 'keep': False, 'timeout': 0.5},
+                                                                                                                 {'recycle': 2, 'keep': False, 'timeout': 1.5}]
 
 
 def bounds(tier):
@@ -34,7 +36,9 @@ def gen_cases(tier, seed):
             for ci in range(len(CONFIGS)):
                 yield {'vec': list(vec), 'cfg': ci, 'bound': 2, 'mode': 'dedicated'}
     n = full + 1
-    for vec in itertools.product(B, repeat=n):
+    # the longest vectors use one representative of the behaviours that never touch the worker protocol differently
+    B_long = [b for b in B if b not in ('extractor_raises', 'bare_status', 'spawns_child')] if tier == 'quick' else B
+    for vec in itertools.product(B_long, repeat=n):
         if tier == 'thorough' and len(set(vec) & set(Q.NEEDS_WORKER)) == 0 and len(set(vec)) > 2:
             continue
         for ci in ((2, 11) if tier == 'quick' else (2, 7, 11)):
@@ -46,7 +50,7 @@ def gen_cases(tier, seed):
             for keep in (False, True):
                 yield {'vec': list(vec), 'cfg': 0 if not keep else 2, 'mode': 'inprocess'}
     if tier == 'thorough':
-        real = [b for b in B if b not in ('late', 'hang_traps_sigterm', 'spawns_child')]
+        real = [b for b in B if b not in ('late', 'hang_traps_sigterm', 'spawns_child', 'late_unkillable', 'player_raises_badstr')]
         for vec in itertools.product(real, repeat=3):
             if sum(1 for b in vec if b == 'hang') > 1:
                 continue
